@@ -404,8 +404,22 @@ class _Cols(list):
 
 
 class _Series:
-    def __init__(self, cells):
+    """cells + ROW LABELS (pandas aligns on labels, not on positions, when a Series is stored into a frame)"""
+
+    def __init__(self, cells, index=None, dtype=None):
         self.cells = list(cells)
+        self.index = list(range(len(self.cells))) if index is None else list(index)
+        if len(self.index) != len(self.cells):
+            raise ValueError("Length of values does not match length of index")
+
+    def __iter__(self):
+        return iter(self.cells)
+
+    def __len__(self):
+        return len(self.cells)
+
+    def tolist(self):
+        return list(self.cells)
 
     @property
     def is_unique(self):
@@ -419,40 +433,75 @@ class _Series:
         return out
 
     def map(self, mapping):
-        return _Series([mapping[c] if (not _isna(c) and c in mapping) else NA for c in self.cells])
+        if callable(mapping):
+            return self.apply(mapping)
+        return _Series([mapping[c] if (not _isna(c) and c in mapping) else NA for c in self.cells], self.index)
 
     def astype(self, dtype):
-        return _Series(self.cells)
+        return _Series(self.cells, self.index)
 
     def copy(self):
-        return _Series(self.cells)
+        return _Series(self.cells, self.index)
 
     def apply(self, fn):
-        return _Series([fn(c) for c in self.cells])
+        return _Series([fn(c) for c in self.cells], self.index)
+
+    def reset_index(self, drop=False):
+        if not drop:
+            raise Unsupported("Series.reset_index(drop=False)")
+        return _Series(self.cells)
 
     def is_integer(self):
         return all(isinstance(c, (int, SInt)) and not isinstance(c, bool) for c in self.cells)
 
 
 class _Frame:
-    def __init__(self, data):
-        self.data = {k: (v if isinstance(v, _Series) else _Series(v)) for k, v in data.items()}
+    def __init__(self, data, index=None):
+        cols = {}
+        for k, v in data.items():
+            cols[k] = v if isinstance(v, _Series) else _Series(v, index)
+        ser = [v for k, v in data.items() if isinstance(v, _Series)]
+        if index is None and ser:
+            index = ser[0].index
+            if any(x.index != index for x in ser):
+                raise Unsupported("DataFrame from Series with different indexes")
+        n = len(next(iter(cols.values())).cells) if cols else 0
+        self.index = list(range(n)) if index is None else list(index)
+        self.data = {k: _Series(v.cells, self.index) for k, v in cols.items()}
 
     @property
     def columns(self):
         return _Cols(self.data.keys())
 
+    def __len__(self):
+        return len(self.index)
+
     def copy(self):
-        return _Frame({k: v.copy() for k, v in self.data.items()})
+        return _Frame({k: v.copy() for k, v in self.data.items()}, self.index)
 
     def __getitem__(self, k):
         return self.data[k]
 
     def __setitem__(self, k, v):
-        self.data[k] = v if isinstance(v, _Series) else _Series(v)
+        if isinstance(v, _Series):
+            # pandas: a Series is aligned on the ROW LABELS of the frame; labels it does not have become missing
+            if len(set(v.index)) != len(v.index):
+                raise ValueError("cannot reindex on an axis with duplicate labels")
+            at = {lab: c for lab, c in zip(v.index, v.cells)}
+            self.data[k] = _Series([at.get(lab, NA) for lab in self.index], self.index)
+        else:
+            v = list(v)
+            if len(v) != len(self.index):
+                raise ValueError("Length of values does not match length of index")
+            self.data[k] = _Series(v, self.index)
 
     def map(self, fn):
-        return _Frame({k: v.apply(fn) for k, v in self.data.items()})
+        return _Frame({k: v.apply(fn) for k, v in self.data.items()}, self.index)
+
+    def reset_index(self, drop=False):
+        if not drop:
+            raise Unsupported("DataFrame.reset_index(drop=False)")
+        return _Frame({k: _Series(v.cells) for k, v in self.data.items()})
 
     def to_dict(self, orient="dict"):
         if orient != "list":
@@ -464,6 +513,7 @@ class _PdShim:
     """the names csv/_import.py uses from pandas"""
 
     DataFrame = _Frame
+    Series = _Series
 
     @staticmethod
     def isna(x):
@@ -544,12 +594,14 @@ def csv_harness(ctx, cfg):
     ctx.input("name_map", name_map)
     ctx.input("cells", {k: [x for x in v.c.flat] for k, v in sym.items()})
     ctx.input("node_features", cfg.get("features"))
+    ctx.input("index", cfg.get("index"))
     install_csv()
     exc = tr = None
     try:
         with warnings.catch_warnings():
             warnings.simplefilter("ignore")
-            tr = ci.tracks_from_df(_Frame(data), node_name_map=dict(name_map), features=cfg.get("features"))
+            tr = ci.tracks_from_df(_Frame(data, cfg.get("index")), node_name_map=dict(name_map),
+                                   features=cfg.get("features"))
     except Unsupported:
         raise
     except Exception as e:
@@ -621,7 +673,7 @@ def csv_replay(f):
         else:
             cols[name] = np.array([_num(v) for v in inp["cells"][name]], dtype=np.int64 if kind == "int" else float)
             data[name] = cols[name]
-    df = pd.DataFrame(data)
+    df = pd.DataFrame(data, index=inp.get("index"))
     exc = tr = None
     try:
         with warnings.catch_warnings():
@@ -631,7 +683,8 @@ def csv_replay(f):
         exc = e
     links = [(parents[i], ids[i]) for i in range(n) if inp["parents"][i][0] != "none"]
     ren = csv_renumbering(ids)
-    detail = f"table={ {k: list(v) for k, v in data.items()} } name_map={inp['name_map']} -> exc={exc!r}"
+    detail = f"table={ {k: list(v) for k, v in data.items()} } index={inp.get('index')} name_map={inp['name_map']} " \
+             f"-> exc={exc!r}"
     if ob == "C12.malformed_source_rejected_with_ValueError":
         return (not isinstance(exc, ValueError)), detail + (
             f" imported nodes={sorted(tr.graph.nodes)} edges={sorted(tr.graph.edges)}" if tr is not None else "")
